@@ -77,7 +77,13 @@ LEVEL_TEXT = ("Lean 4 theorems (Props/C08.lean) about ANY two least-squares solu
               "distinct, in 1..n; equal residuals, [pvv], A x, defect, all q_bb; each x S-orthogonal to ker A over its own "
               "list), C08_pe_datum_gap / C08_net_datum_gap with ONE input-side solver hypothesis per run (InputGap on the same "
               "(A, P), once per list; RegListOK of both lists derived from the calls); C08_net_datum applied over R to a "
-              "correlated network with cholesky on one list and the envelope on the other (C08_net_datum_witness).")
+              "correlated network with cholesky on one list and the envelope on the other (C08_net_datum_witness). "
+              "Round 11 (Props/C08Invariants.lean, clause 6 to FIRST ORDER on the regenerated linearisation): every regenerated row "
+              "annihilates the datum generators of its class (C08_rows_annihilate_datum_generators), their span lies in ker A of the "
+              "executed pass and of project_equations() output (C08_datum_generators_in_kernel, C08_pe_datum_generators_in_kernel), the "
+              "linearised distance / angle between two adjusted points is the same for two datum solutions "
+              "(C08_adjusted_distance_datum_invariant, C08_adjusted_angle_datum_invariant; hypothesis hker = ker A within that span, "
+              "assumed); C08_pe_datum_gap applied over R to two evaluated project_equations() outputs (Props/C08PeWitness.lean).")
 LEVEL_NOTE = ("Exact-arithmetic statements; IEEE rounding is outside. 'All distances and angles between adjusted points are "
               "the same' is proved to FIRST ORDER on the regenerated linearisation (Props/C08Invariants.lean, round 11): every "
               "row of the 13 regenerated classes annihilates the datum generators its class is invariant under "
